@@ -28,7 +28,15 @@ RULE = ("per rule object R (enumerated from _DEFAULT_REWRITE_RULES, rules.common
         "thorough 2); a leaf = one host model; non-trivial = the rule was really applied to the real model and "
         "reached the oracle (fired or declined); distinct by (rule, parameters)")
 ASSUMPTIONS = ["onnxruntime 1.30 CPU (ORT_DISABLE_ALL) and onnx.reference define what a model computes; an input "
-               "on which they disagree about the ORIGINAL model is skipped and counted",
+               "on which they disagree about the ORIGINAL model is skipped and counted (for Conv/ConvTranspose/"
+               "BatchNormalization/Flatten hosts a numpy specification written from the operator docs replaces "
+               "onnx.reference as second opinion, because its Conv mishandles auto_pad and it lacks grouped "
+               "ConvTranspose and size-0 Flatten); a mismatch on which onnx.reference(after) reproduces the original "
+               "is counted as runtime disagreement about the rewritten model, not as a violation",
+               "floats compared with vf.runeq tolerances; rules that re-associate a reduction (weights folded into "
+               "Conv/Gemm, fused normalisations) are compared against the magnitude of the output tensor "
+               "(2e-5 f32 / 1e-9 f64 / 4e-3 f16 times max|y|); RMSNorm hosts that compute in a narrower type than "
+               "their input are compared at the narrower type's tolerance",
                "onnx.checker.check_model(full_check=True) defines validity for the declared opset",
                "rule spaces are hand-written from the rule sources; the dimensions per rule are listed in evidence",
                "an exception raised by a rule is a refusal (counted), totality is C04's subject"]
